@@ -40,6 +40,15 @@ def axialStack : Kin Float → Bool
   | .para i _ _ _ => axialStack i
   | .shape i _ => axialStack i
 
+/-- the pose the core solver is asked for (wrappers stripped) -/
+def Kin.localPoseF : Kin Float → Iso Float → Iso Float
+  | .opw _, pose => pose
+  | .tool i t, pose => Kin.localPoseF i (pose.mul t.inv)
+  | .base i b, pose => Kin.localPoseF i (b.inv.mul pose)
+  | .frame i f, pose => Kin.localPoseF i (pose.mul f.inv)
+  | .para i _ _ _, pose => Kin.localPoseF i pose
+  | .shape i _, pose => Kin.localPoseF i pose
+
 def isBare : Kin Float → Bool
   | .opw _ => true
   | _ => false
@@ -58,6 +67,20 @@ def zAxis (a : Iso Float) : V3 Float := a.q.rotate V3.ez
 def axisErr (a b : Iso Float) : Float :=
   let c := V3.cross (zAxis a) (zAxis b)
   Float.atan2 c.norm (V3.dot (zAxis a) (zAxis b))
+
+/-- oracle for C05's premise ("sensitivity of the arm to a 0.125 µm shift below the bound and no
+second IK branch simultaneously singular"): among the answers of the pose shifted by the four
+`SINGULARITY_SHIFTS`, wrist-singular ones exist, all lie on one arm branch (J1..J3), and their
+|sin θ5| is small enough for the redistributed candidate to stay within the angular tolerance. -/
+def singPremise (p : Params Float) (pose : Iso Float) : Bool :=
+  let sing := (shifts : List (V3 Float)).flatMap (fun d =>
+    let shifted : Iso Float := ⟨⟨pose.t.x + d.x, pose.t.y + d.y, pose.t.z + d.z⟩, pose.q⟩
+    (inverseIntern p shifted).filter (kinematicSingularity p))
+  match sing with
+  | [] => false
+  | s0 :: _ =>
+    sing.all (fun s => angEquiv 1e-4 s.j1 s0.j1 && angEquiv 1e-4 s.j2 s0.j2 && angEquiv 1e-4 s.j3 s0.j3) &&
+    sing.all (fun s => 2.0 * (Float.sin (thetaOf p s).j5).abs < 0.9e-6)
 
 def rOut {α} (rd : RM α) : RM (Option α) := do
   expect "=>"
@@ -244,8 +267,14 @@ def opInverse (e : Entry) : RM Res := do
       let p := k.core.p
       let (m5, m3, m1) := thetaMargins p q
       let nonsing := m5 > 1e-3 && m3 > 1e-3 && m1 > 1e-3 && q.allFinite
+      -- the vector that has to come back: for the 5-DOF variants joint 6 carries the caller's value
+      let j6req : Float := match e with
+        | .inv5 => j6
+        | .invc5 => prev.j6
+        | .inv => if k.core.p.dof == 5 then 0.0 else q.j6
+        | .invc => if k.core.p.dof == 5 then prev.j6 else q.j6
       let compliantQ := match k.constraints with
-        | some c => c.compliant q
+        | some c => c.compliant { q with j6 := j6req }
         | none => true
       let prevOk := !(e == .invc || e == .invc5) || prev.allFinite || prev.j1.isNaN && prev.j6.isFinite
       if nonsing && compliantQ && !hasPara k && pose.allFinite && prevOk && (!five || axialStack k) then
@@ -258,6 +287,51 @@ def opInverse (e : Entry) : RM Res := do
           preds := preds ++ [("C06.origin", found, s!"originating J1..J5 {showJ6 q} not among {sols.length} answers")]
         if p.dof == 5 && (e == .inv || e == .invc) then
           preds := preds ++ [("C06.dof5_nonempty", !sols.isEmpty, "5-DOF robot returned nothing for a reachable pose")]
+    | none => pure ()
+    -- C04/C05: previous joints that realise the pose come back first
+    if e == .invc && !hasPara k && k.core.p.dof != 5 && prev.allFinite then
+      let p := k.core.p
+      let realises := posErr pose (forwardC k prev) ≤ 1e-9 && (angErr pose (forwardC k prev)).abs ≤ 1e-9
+      let (m5, m3, m1) := thetaMargins p prev
+      let byPrevSort := match k.constraints with
+        | some c => c.sortingWeight == 0.0 && c.compliant prev
+        | none => true
+      let inRange2 := prev.toList.all (fun x => x.abs ≤ 2.0 * piF)
+      if realises && byPrevSort && inRange2 && m3 > 0.2 && m1 > 0.2 then
+        if m5 > 0.2 then
+          let first := sols.head?
+          preds := preds ++ [("C04.prev_first", match first with
+            | some s => closeJ6 1e-6 s prev
+            | none => false, s!"previous {showJ6 prev} realises the pose but the first answer is {first.map showJ6}")]
+        else if m5 < 1e-12 && (Float.sin ((thetaOf p prev).j5 / 2.0)).abs < 1e-6 &&
+            singPremise p (Kin.localPoseF k pose) then
+          -- exactly singular with θ5 = 0 (mod 2π): first answer equals previous (0.125 µm shift allowed for)
+          let first := sols.head?
+          preds := preds ++ [("C05.first_eq_prev", match first with
+            | some s => closeJ6 2e-5 s prev
+            | none => false, s!"singular pose realised by previous {showJ6 prev}, first answer {first.map showJ6}")]
+    -- C04: a trajectory point close to the previous answer is tracked
+    match org with
+    | some q =>
+      if e == .invc && !hasPara k && k.core.p.dof != 5 && prev.allFinite && q.allFinite then
+        let p := k.core.p
+        let (m5, m3, m1) := thetaMargins p q
+        let byPrevSort := match k.constraints with
+          | some c => c.sortingWeight == 0.0 && c.compliant q
+          | none => true
+        if byPrevSort && m5 > 0.25 && m3 > 0.25 && m1 > 0.25 &&
+            ((prev.j1 - q.j1).abs + (prev.j2 - q.j2).abs + (prev.j3 - q.j3).abs + (prev.j4 - q.j4).abs + (prev.j5 - q.j5).abs + (prev.j6 - q.j6).abs) ≤ 0.1 &&
+            q.toList.all (fun x => x.abs ≤ piF) then
+          let first := sols.head?
+          preds := preds ++ [("C04.track", match first with
+            | some s => closeJ6 1e-6 s q
+            | none => false, s!"trajectory point {showJ6 q} (previous {showJ6 prev}) not tracked: first answer {first.map showJ6}")]
+        -- C05: singular pose (θ5 = 0), previous with another J4/J6 split: some answer moves J4 and J6 by the same amount
+        if k.constraints.isNone && m5 < 1e-12 && m3 > 0.25 && m1 > 0.25 && (Float.sin ((thetaOf p q).j5 / 2.0)).abs < 1e-6 &&
+            singPremise p (Kin.localPoseF k pose) then
+          let good := sols.any (fun s =>
+            ((s.j4 - prev.j4).abs - (s.j6 - prev.j6).abs).abs ≤ 1e-6 && posErr pose (forwardC k s) ≤ dT + 1e-9)
+          preds := preds ++ [("C05.equal_shift", good, s!"no answer moves J4 and J6 by the same amount from previous {showJ6 prev}: {sols.map showJ6}")]
     | none => pure ()
     let tags := [s!"n={sols.length}", s!"entry={e.name}"]
     pure { corr := if ok then "OK" else "MISMATCH",
